@@ -17,6 +17,8 @@ use std::num::NonZeroUsize;
 
 // public-API completion (track apigaps): further op words, their generator and scripted cases
 mod api;
+// the last public corners (track apileft): anchors / arenas / slices obtained through `Default`
+mod api2;
 
 #[derive(Clone, Copy, PartialEq, Debug)]
 enum Cell {
@@ -298,6 +300,9 @@ impl Exec for IovecExec {
         let mut so = StepOut::default();
         if self.dead_memory {
             return so;
+        }
+        if let Some(r) = self.step_api2(w) {
+            return r;
         }
         if let Some(r) = self.step_api_tagged(w) {
             return r;
@@ -994,6 +999,7 @@ impl Family for IovecFamily {
         cases.extend(self.ownership_cases());
         cases.extend(self.handoff_cases());
         cases.extend(api::enumerated_cases());
+        cases.extend(api2::enumerated_cases());
         cases.extend(vec![
             c(&["new", "register v0 0000", "backfill v0 b0 aa"]),
             c(&["new", "register v0 0000", "backfill v0 b0 aabbcc"]),
@@ -1040,6 +1046,9 @@ impl Family for IovecFamily {
             };
             // the public-API completion vocabulary (fam_iovec/api.rs)
             if g.rng.chance(14, 100) && api::gen_op(&mut g, v) {
+                continue;
+            }
+            if g.rng.chance(4, 100) && api2::gen_op(&mut g, v) {
                 continue;
             }
             let roll = g.rng.below(100);
